@@ -174,6 +174,7 @@ func implRing(raw json.RawMessage) (any, error) {
 
 func Ops() []*core.Op {
 	return []*core.Op{
+		poolOp(),
 		{
 			Name: "c20.history",
 			Doc:  "nodepoolhealth.State driven by update/reset/setStatus/restart/dryRun histories; status after every op",
